@@ -19,6 +19,7 @@ var simsched struct {
 	buf     [2048]guintptr
 	trace   bool
 	sig     uint64
+	goid0   uint64
 	stackAt uint64
 }
 
@@ -48,6 +49,7 @@ func SimEnable(seed uint64, yieldN uint32, selectShuffle bool) {
 	simsched.resume = 0
 	simsched.picks, simsched.draws, simsched.points, simsched.yields, simsched.preempt = 0, 0, 0, 0, 0
 	simsched.sig = 0xcbf29ce484222325
+	simsched.goid0 = getg().goid
 	simsched.on = true
 }
 
@@ -119,9 +121,24 @@ func simPrintCallers() {
 	}
 }
 
+// simUserRand backs the unseeded global generators of math/rand and math/rand/v2.
+//
+//go:linkname simUserRand
+func simUserRand() uint64 {
+	if simsched.on {
+		if gp := getg(); gp.bubble != nil && gp == gp.m.curg {
+			return simrand()
+		}
+	}
+	return rand()
+}
+
 func simTimerRand() uint32 {
 	if !simsched.on {
 		return cheaprand()
+	}
+	if simsched.trace {
+		print("TRND goid=", getg().goid, "\n")
 	}
 	return uint32(simrand() >> 32)
 }
@@ -203,14 +220,13 @@ func simPick(pp *p) *g {
 		} else {
 			simsched.draws++
 			idx = int(simrand() % uint64(n))
+			// schedule signature: FNV-1a over (runnable-set size, chosen position) of every drawn
+			// decision; forced picks and preemption resumes are not decisions
+			simsched.sig = (simsched.sig ^ uint64(n)) * 0x100000001b3
+			simsched.sig = (simsched.sig ^ uint64(idx)) * 0x100000001b3
 		}
 	}
 	gp := simsched.buf[idx].ptr()
-	if !resumed {
-		// schedule signature: FNV-1a over (pool size, chosen index) of every real decision
-		simsched.sig = (simsched.sig ^ uint64(n)) * 0x100000001b3
-		simsched.sig = (simsched.sig ^ uint64(idx)) * 0x100000001b3
-	}
 	if simsched.trace && !resumed {
 		print("PICK n=", n, " idx=", idx, " goid=", gp.goid, " bub=", gp.bubble != nil, " pts=", simsched.points, " pool=")
 		for i := 0; i < n; i++ {
